@@ -89,8 +89,22 @@ impl<'l, F: AsFd> Async<'l, F> {
         }
 
         // SAFETY: We are sure to deregister on drop.
-        unsafe {
-            inner.register(&dispatcher)?;
+        if let Err(err) = unsafe { inner.register(&dispatcher) } {
+            // Leave everything as it was found: free the slot and restore the blocking mode
+            // (the fd is not ours to unregister: it may be registered by somebody else)
+            if let Some(token) = dispatcher.borrow().token {
+                if let Ok(slot) = inner.sources.borrow_mut().get_mut(token.inner) {
+                    slot.source = None;
+                }
+            }
+            let _ = set_nonblocking(
+                #[cfg(unix)]
+                fd.as_fd(),
+                #[cfg(windows)]
+                fd.as_socket(),
+                was_nonblocking,
+            );
+            return Err(err);
         }
 
         // Straightforward casting would require us to add the bound `Data: 'l` but we don't actually need it
